@@ -18,6 +18,7 @@ core.bootstrap()
 import beanquery  # noqa: E402
 
 PROP = 'C09'
+D = world.D
 RULE = ('one run = one seeded history (<= 3 clients x <= 25 ops, explicit schedule) of exec_text / parse / exec_ast / '
         'executemany / fold-pair / register / unregister operations on one shared connection over a generated ledger and '
         'harness tables, with nested re-entrant executions and injected faults (storage error mid-scan, user-function error, '
@@ -30,7 +31,7 @@ ASSUMPTIONS = [
     'an operation hit by an injected fault may raise the injected exception or a DB-API Error, or return the reference result - never different data',
     'today(), joinstr() and repr() are excluded from workloads (clock, hash-order, addresses)',
 ]
-PROBES = ['table_content_replaced', 'ledger_replaced', 'ast_reexecuted', 'ast_reexecuted_after_failure', 'ast_reexecuted_other_params', 'executemany_multi',
+PROBES = ['cursor_reused', 'params_container_reused_in_place', 'table_content_replaced', 'ledger_replaced', 'ast_reexecuted', 'ast_reexecuted_after_failure', 'ast_reexecuted_other_params', 'executemany_multi',
           'nested_execution', 'nested_same_ast', 'late_table_retry', 'positional_ge2', 'named_repeated', 'placeholder_in_subquery',
           'placeholder_in_order_by', 'fault_then_execute', 'fold_pair_compared', 'literal_twin_compared', 'from_clause_then_plain',
           'balance_stmt_nested_in_balance_stmt']
@@ -143,6 +144,11 @@ def gen_slot(rng, t):
         return rng.choice(['lineno', 'nosuchkey', 'filename'])
     if t == 'nbool':
         return rng.choice([True, False, None])
+    if t == 'dec' and rng.random() < 0.25:
+        # values that compare equal but are different BQL constants (exponent is part of the value)
+        return rng.choice([D('1'), D('1.0'), D('1.00'), D('2'), D('2.0'), D('0'), D('0.0')])
+    if t == 'int' and rng.random() < 0.2:
+        return rng.choice([0, 1, 2])
     return world.gen_value(rng, t)
 
 
@@ -232,12 +238,26 @@ def generate(rng, tier, run):
              and (p_[0] != 'SELECT a FROM' or rng.random() < 0.25)]
     for tpl, tags in rng.sample(plain, rng.randint(2, 5)):
         pool.append({'t': tpl, 'types': [], 'tags': list(tags), 'names': []})
+    # a family of FROM clauses sharing later qualifiers while differing in earlier ones (and vice versa)
+    if rng.random() < 0.5:
+        opens = [None, 'OPEN ON 2020-01-15', 'OPEN ON 2020-02-01']
+        closes = [None, 'CLOSE ON 2020-03-01', 'CLOSE ON 2020-04-01', 'CLOSE']
+        clears = [None, 'CLEAR']
+        combos = set()
+        for _ in range(rng.randint(2, 4)):
+            parts = [x for x in (rng.choice(opens), rng.choice(closes), rng.choice(clears)) if x]
+            if parts:
+                combos.add(' '.join(parts))
+        for c_ in sorted(combos):
+            pool.append({'t': f'SELECT account, sum(position) AS s, count(position) AS n FROM {c_} GROUP BY account ORDER BY account',
+                         'types': [], 'tags': ['from', 'fromfam'], 'names': []})
     rng.shuffle(pool)
     param_idx = [i for i, s in enumerate(pool) if s['types']]
     nclients = rng.choice([1, 1, 2, 2, 3])
     maxops = 25 if not big else 40
     enable = {k: rng.random() < p for k, p in
-              (('faults', 0.5), ('fold', 0.5), ('many', 0.6), ('ast', 0.85), ('tables', 0.5), ('badparams', 0.3))}
+              (('faults', 0.5), ('fold', 0.5), ('many', 0.6), ('ast', 0.85), ('tables', 0.5), ('badparams', 0.3),
+               ('samecursor', 0.4))}
     clients = []
     nested = {}
     handle_no = 0
@@ -276,6 +296,14 @@ def generate(rng, tier, run):
                 mode = rng.choice(['pos', 'named', 'lit']) if pool[i]['types'] else 'lit'
                 ops.append({'op': 'exec', 'stmt': i, 'mode': mode, 'vals': [world.enc(v) for v in gen_vals(rng, pool[i])],
                             'real_parse': rng.random() < 0.04, 'twin_real': rng.random() < 0.02})
+                if enable['samecursor']:
+                    # DB-API style: one long-lived cursor per client; optionally the same statement again with the
+                    # caller's parameter container updated in place
+                    ops[-1]['cursor'] = 'own'
+                    if ops and len(ops) >= 2 and ops[-2].get('op') == 'exec' and rng.random() < 0.45:
+                        prev = ops[-2]
+                        ops[-1].update({'stmt': prev['stmt'], 'mode': prev['mode'], 'reuse_params': rng.random() < 0.7,
+                                        'vals': [world.enc(v) for v in gen_vals(rng, pool[prev['stmt']])], 'real_parse': prev.get('real_parse', False)})
                 if enable['badparams'] and pool[i]['types'] and mode != 'lit' and rng.random() < 0.15:
                     ops[-1]['badparams'] = rng.choice(['short', 'long', 'none', 'wrongkind'])
             op = ops[-1]
@@ -322,9 +350,10 @@ def generate(rng, tier, run):
 # ---------------------------------------------------------------------------
 # execution
 
-def run_stmt(conn, arg, params):
+def run_stmt(conn, arg, params, cur=None):
     """Outcome of one Cursor.execute through the public API."""
-    cur = conn.cursor()
+    if cur is None:
+        cur = conn.cursor()
     cur.execute(arg, params)
     return outcome_of(cur)
 
@@ -469,9 +498,32 @@ def execute(case, keep_log=False):
                     S.probes['late_table_retry'] += 1
             executed_texts.add(st['t'])
 
-        def do_exec(op, where, nested_same_ast=None):
+        own_cursor = {}
+        last_params = {}
+
+        def do_exec(op, where, nested_same_ast=None, ci=None):
             st, text, params = prepare(op)
             note_exec(st, text)
+            cur = None
+            if op.get('cursor') == 'own' and ci is not None and nested_same_ast is None:
+                cur = own_cursor.get(ci)
+                if cur is None:
+                    cur = own_cursor[ci] = conn.cursor()
+                else:
+                    S.probes['cursor_reused'] += 1
+                prev = last_params.get(ci)
+                if op.get('reuse_params') and prev is not None and params is not None and type(prev) is type(params) \
+                        and not op.get('badparams'):
+                    # the caller keeps one list/dict and overwrites its items between executions
+                    if isinstance(prev, list) and len(prev) == len(params):
+                        prev[:] = params
+                        params = prev
+                        S.probes['params_container_reused_in_place'] += 1
+                    elif isinstance(prev, dict) and set(prev) == set(params):
+                        prev.update(params)
+                        params = prev
+                        S.probes['params_container_reused_in_place'] += 1
+                last_params[ci] = params
             pristine = copy.deepcopy(params)
             if nested_same_ast is not None:
                 arg = nested_same_ast
@@ -487,7 +539,7 @@ def execute(case, keep_log=False):
                 S.arm(op.get('fault'))
             fired0 = sum(S.fired.values())
             try:
-                got = guarded(lambda: run_stmt(conn, arg, params))
+                got = guarded(lambda: run_stmt(conn, arg, params, cur))
             finally:
                 active_bal[0] -= isbal
             if S.reenter_depth == 0:
@@ -538,7 +590,7 @@ def execute(case, keep_log=False):
             calls[0] = 0
             outer['ast'] = None
             if k == 'exec':
-                do_exec(op, where)
+                do_exec(op, where, ci=ci)
             elif k == 'parse':
                 st = pool[op['stmt']]
                 vals0 = [None] * len(st['types'])
